@@ -230,6 +230,10 @@ def module_input(rng, kind, q, wd):
         shape = (int(rng.integers(1, 4)),) + ((int(rng.integers(1, 3)),) if rng.random() < 0.5 else ()) + tuple(
             q.normalized_shape)
     mag = float(np.exp(rng.uniform(np.log(0.05), np.log(20))))
+    if rng.random() < 0.2:
+        # large activations: the float twin stays far inside the dtype's range (weights are small), but a product
+        # accumulated in raw code units before the scales are applied would not
+        mag = float(rng.choice([60.0, 150.0, 400.0]))
     x = (torch.from_numpy(rng.standard_normal(shape)) * mag).to(wd)
     # memory layouts real models feed to a layer: the result of a transpose (attention blocks), channels_last images,
     # a strided slice; the values are the same, only the strides change
